@@ -53,6 +53,7 @@ RULE = (
     " Outcome \"jump\": no reply and the wall clock stepped forward by an hour during the attem"
     "pt. Real sockets: a foreign task blocks the loop for 1.3 s during an unanswered attempt "
     "(at most `retries` datagrams reach the peer)."
+    " Histories of up to 2100 failed socket creations before a normal exchange."
 )
 ASSUMPTIONS = [
     "the fake transport follows asyncio's selector datagram transport closing semantics (no delivery after close/abort, connection_lost via call_soon)",
